@@ -247,6 +247,21 @@ def opChunkFiles (j : Json) : M Json := do
         ("first_closing", jNat (n / per)), ("sim_close_time", jNat c), ("sim_submitted", jNat k),
         ("sim_total", jNat tot), ("sim_horizon", jNat H)])
 
+/-- op storage_fault: byte sizes of the chunk files of a conversion and whether a
+    per-file byte budget makes some conversion job fail (C05/C17) -/
+def opStorageFault (j : Json) : M Json := do
+  let es ← getIdEvents j "events"
+  let per ← getNat j "per"
+  let budget ← getNat j "budget"
+  match makeChunks Generated.pyMagic Generated.pyVersion .keep es per with
+  | .error e => pure (jErr e)
+  | .ok (files, _) =>
+    let sizes := files.map (·.length)
+    -- a job behind the end still writes the 12 byte header before it removes the file
+    let fails := sizes.any (fun s => decide (s > budget)) || decide (budget < 12)
+    pure (Json.mkObj [("sizes", jNats sizes), ("raises", Json.bool fails),
+                      ("encoded_sizes", jNats ((List.range files.length).map (fun k => encodedSize (chunkOf per es k))))])
+
 def handle (j : Json) : M Json := do
   let op ← getStr j "op"
   match op with
@@ -257,6 +272,7 @@ def handle (j : Json) : M Json := do
   | "queue_trace" => opQueueTrace j
   | "partition" => opPartition j
   | "chunk_files" => opChunkFiles j
+  | "storage_fault" => opStorageFault j
   | "encode" => opEncode j
   | "decode" => opDecode j
   | "kernel_b2b" => opKernelB2B j
